@@ -1,6 +1,7 @@
 package vlib
 
 import (
+	"fmt"
 	"os"
 	"path/filepath"
 	"sort"
@@ -274,4 +275,157 @@ func EachTokenSeq(prefixes, sigma []string, maxLen int, mine func(i int) bool, y
 			}
 		}
 	}
+}
+
+// EachLongLine enumerates documents whose diagnostic lies on a line around
+// the length at which the quoted source line is cut (200 bytes): three line
+// shapes x filler length 185..205 x 0..10 tail bytes of nine classes (UTF-8
+// continuation and lead bytes, complete 2- and 3-byte characters, ASCII) x
+// line end (none, LF, CRLF) x last line or not.
+func EachLongLine(mine func(int) bool, yield func(string) bool) {
+	shapes := []struct{ head, close string }{
+		{"JSIGHT 0.3\nGET /", ""},            // invalid UTF-8 / stray bytes in a path
+		{"JSIGHT 0.3\nZ", ""},                // unknown directive at the line start
+		{"JSIGHT 0.3\nINFO\n  Title \"", ""}, // unterminated quote
+	}
+	tails := []string{"\x80", "\xbf", "\xc3", "\xe2", "\xff", "é", "€", "a", " "}
+	idx := 0
+	for _, sh := range shapes {
+		for n := 185; n <= 205; n++ {
+			for m := 0; m <= 10; m++ {
+				for _, tl := range tails {
+					for _, end := range []string{"", "\n", "\r\n"} {
+						for _, after := range []string{"", "TYPE @t\n{}\n"} {
+							if end == "" && after != "" {
+								continue
+							}
+							idx++
+							if !mine(idx) {
+								continue
+							}
+							var sb strings.Builder
+							sb.WriteString(sh.head)
+							sb.WriteString(strings.Repeat("a", n))
+							sb.WriteString(strings.Repeat(tl, m))
+							sb.WriteString(sh.close + end + after)
+							if !yield(sb.String()) {
+								return
+							}
+						}
+					}
+				}
+			}
+		}
+	}
+}
+
+// GenRuleSoup draws a document whose schema bodies carry rule comments drawn
+// from a grammar of rule names and well- and ill-shaped rule values (scalars,
+// type names, lists, nested rule objects), in every host that takes a schema.
+func GenRuleSoup(t *rapid.T) string {
+	typeNames := []string{"integer", "string", "float", "boolean", "any", "mixed", "enum", "object", "array", "null", "email", "uri", "date", "datetime", "uuid", "decimal", "@t", "@e", "@s", "@undefined", "", "@"}
+	ruleNames := []string{"type", "or", "enum", "allOf", "optional", "nullable", "min", "max", "minLength", "maxLength", "regex", "additionalProperties", "const", "precision", "exclusiveMinimum", "exclusiveMaximum", "minItems", "maxItems", "serializeFormat", "serializedType", "nosuchrule"}
+	var ruleVal func(depth int) string
+	ruleObj := func(depth int) string {
+		n := rapid.IntRange(0, 2).Draw(t, "nInner")
+		var parts []string
+		for i := 0; i < n; i++ {
+			parts = append(parts, rapid.SampledFrom(ruleNames).Draw(t, "innerRule")+": "+ruleVal(depth+1))
+		}
+		return "{" + strings.Join(parts, ", ") + "}"
+	}
+	ruleVal = func(depth int) string {
+		k := rapid.IntRange(0, 7).Draw(t, "valKind")
+		if depth >= 2 && k >= 5 {
+			k = 0
+		}
+		switch k {
+		case 0:
+			return fmt.Sprintf("%q", rapid.SampledFrom(typeNames).Draw(t, "typeName"))
+		case 1:
+			return rapid.SampledFrom([]string{"0", "1", "-1", "2.5", "100", "1e3"}).Draw(t, "num")
+		case 2:
+			return rapid.SampledFrom([]string{"true", "false", "null"}).Draw(t, "lit")
+		case 3:
+			return rapid.SampledFrom([]string{"@t", "@e", "@s", "@undefined"}).Draw(t, "bareName")
+		case 4:
+			return rapid.SampledFrom([]string{"\"^a+$\"", "\"\"", "\"(\"", "\"x\""}).Draw(t, "str")
+		case 5:
+			n := rapid.IntRange(0, 3).Draw(t, "nList")
+			var items []string
+			for i := 0; i < n; i++ {
+				items = append(items, ruleVal(depth+1))
+			}
+			return "[" + strings.Join(items, ", ") + "]"
+		default:
+			return ruleObj(depth)
+		}
+	}
+	rules := func() string {
+		n := rapid.IntRange(0, 3).Draw(t, "nRules")
+		if n == 0 {
+			return ""
+		}
+		var parts []string
+		for i := 0; i < n; i++ {
+			parts = append(parts, rapid.SampledFrom(ruleNames).Draw(t, "rule")+": "+ruleVal(0))
+		}
+		return " // {" + strings.Join(parts, ", ") + "}"
+	}
+	value := func() string {
+		return rapid.SampledFrom([]string{"1", "\"s\"", "true", "null", "1.5", "{}", "[]", "@t", "@e", "[1]", "{\"n\": 1}", "[@t]", "@t | @s", "\"a@b.c\""}).Draw(t, "value")
+	}
+	body := func(ind string, keys []string) string {
+		var sb strings.Builder
+		switch rapid.IntRange(0, 5).Draw(t, "bodyShape") {
+		case 0:
+			return ind + value() + rules() + "\n"
+		case 1:
+			return ind + "[" + rules() + "\n" + ind + "  " + value() + rules() + "\n" + ind + "]\n"
+		}
+		sb.WriteString(ind + "{" + rules() + "\n")
+		n := rapid.IntRange(1, len(keys)).Draw(t, "nProps")
+		for i := 0; i < n; i++ {
+			comma := ","
+			if i == n-1 {
+				comma = ""
+			}
+			sb.WriteString(fmt.Sprintf("%s  %q: %s%s%s\n", ind, keys[i], value(), comma, rules()))
+		}
+		sb.WriteString(ind + "}\n")
+		return sb.String()
+	}
+	var sb strings.Builder
+	sb.WriteString("JSIGHT 0.3\n")
+	if rapid.IntRange(0, 3).Draw(t, "declT") > 0 {
+		sb.WriteString("TYPE @t\n" + body("", []string{"a", "b"}))
+	}
+	if rapid.IntRange(0, 3).Draw(t, "declS") > 0 {
+		sb.WriteString("TYPE @s\n  \"x\"" + rules() + "\n")
+	}
+	if rapid.IntRange(0, 3).Draw(t, "declE") > 0 {
+		sb.WriteString("ENUM @e\n[1, \"a\"]\n")
+	}
+	keys := []string{"id", "a", "b"}
+	switch rapid.IntRange(0, 8).Draw(t, "host") {
+	case 0:
+		sb.WriteString("TYPE @a\n" + body("", keys))
+	case 1:
+		sb.WriteString("GET /x/{id}\n  Path\n" + body("  ", keys) + "  200 any\n")
+	case 2:
+		sb.WriteString("URL /x/{id}/{a}\n  Path\n" + body("  ", keys) + "  GET\n    200 any\n")
+	case 3:
+		sb.WriteString("GET /x\n  Query\n" + body("  ", keys) + "  200 any\n")
+	case 4:
+		sb.WriteString("POST /x\n  Request\n    Headers\n" + body("    ", keys) + "    Body\n" + body("    ", keys) + "  200 any\n")
+	case 5:
+		sb.WriteString("GET /x\n  200\n" + body("  ", keys) + "  404\n    Headers\n" + body("    ", keys) + "    Body any\n")
+	case 6:
+		sb.WriteString("URL /r\n  Protocol json-rpc-2.0\n  Method m\n    Params\n" + body("    ", keys) + "    Result\n" + body("    ", keys))
+	case 7:
+		sb.WriteString("MACRO @m\n(\n  Path\n" + body("  ", keys) + ")\nGET /x/{id}\n  PASTE @m\n  200 any\n")
+	default:
+		sb.WriteString("POST /x/{id}\n  Request\n" + body("  ", keys) + "  Path\n" + body("  ", keys))
+	}
+	return sb.String()
 }
